@@ -265,6 +265,7 @@ enum Msg {
     Unit(usize, String, u64),
     Report(usize, Box<Report>),
     Found(Box<Found>),
+    Beat(usize),
     Closed(usize),
 }
 
@@ -375,6 +376,8 @@ pub fn cmd_check(prop: &str, tier: Tier, seed: u64, workers: u64) -> i32 {
                     let ph = it.next().unwrap_or("").to_string();
                     let u = it.next().and_then(|x| x.parse().ok()).unwrap_or(0);
                     let _ = tx.send(Msg::Unit(wi, ph, u));
+                } else if line == "H" {
+                    let _ = tx.send(Msg::Beat(wi));
                 } else if let Some(rest) = line.strip_prefix("F ") {
                     match serde_json::from_str::<Found>(rest) {
                         Ok(f) => {
@@ -419,6 +422,7 @@ pub fn cmd_check(prop: &str, tier: Tier, seed: u64, workers: u64) -> i32 {
                 last_progress[w] = Instant::now();
             }
             Ok(Msg::Found(f)) => found.push(*f),
+            Ok(Msg::Beat(w)) => last_progress[w] = Instant::now(),
             Ok(Msg::Report(w, r)) => {
                 reports[w].push(*r);
                 finished[w] = true;
